@@ -45,6 +45,8 @@ package channeldb
 //@   site call WriteElements: assert true
 //@   site return nil: assert ret(Put, 0) == nil && ret(Put, 1) == nil
 //@   loop 0 step len(unsignedUpdates) == prev(len(unsignedUpdates)) + ite(upd.LogIndex >= newCommitment.LocalLogIndex, 1, 0)
+//@   // the list written is built from what THIS run of the transaction read (a backend may run the closure more than once)
+//@   loop 0 entry len(unsignedUpdates) == 0
 //@   site call processFinalHtlc: assert upd.LogIndex < newCommitment.LocalLogIndex && arg(1) == upd
 //@
 //@ func (c *ChannelStateDB) putChanStatus$1
@@ -198,3 +200,36 @@ package channeldb
 //@   site call uint16Key: assert arg(0) == idx
 //@   site call Put: assert arg(0) == bkt && arg(key) == ret(uint16Key) && arg(value) == ret(Bytes) && ret(serializeLogUpdate) == nil
 //@   site call serializeLogUpdate: assert arg(1) == htlc
+//@
+//@ // ---- recording the confirmed SCID of a zero-conf channel rewrites the record from what is ON DISK, not from the caller's
+//@ // ---- (possibly stale) handle: commitment heights and the revocation store of the stored channel are not rolled back
+//@ func (c *ChannelStateDB) MarkChannelRealScid$1
+//@   props C06 C02
+//@   bounds-safe
+//@   site call putOpenChannel: assert arg(1) == retn(fetchOpenChannel, 0) && retn(fetchOpenChannel, 1) == nil
+//@   site call fetchOpenChannel: assert arg(1) == addr(channel.FundingOutpoint)
+//@   site call SetConfirmedScidForStore: assert arg(0) == retn(fetchOpenChannel, 0)
+//@
+//@ func (c *ChannelStateDB) MarkChannelConfirmationHeight$1
+//@   props C06 C02
+//@   bounds-safe
+//@   site call putOpenChannel: assert arg(1) == retn(fetchOpenChannel, 0) && retn(fetchOpenChannel, 1) == nil
+//@   site call fetchOpenChannel: assert arg(1) == addr(channel.FundingOutpoint)
+//@
+//@ func (c *ChannelStateDB) MarkChannelCloseConfirmationHeight$1
+//@   props C06 C02
+//@   bounds-safe
+//@   site call putOpenChannel: assert arg(1) == retn(fetchOpenChannel, 0) && retn(fetchOpenChannel, 1) == nil
+//@   site call fetchOpenChannel: assert arg(1) == addr(channel.FundingOutpoint)
+//@
+//@ func (c *ChannelStateDB) MarkChannelOpen$1
+//@   props C06 C02
+//@   bounds-safe
+//@   site call putOpenChannel: assert arg(1) == retn(fetchOpenChannel, 0) && retn(fetchOpenChannel, 1) == nil
+//@   site call fetchOpenChannel: assert arg(1) == addr(channel.FundingOutpoint)
+//@
+//@ func (c *ChannelStateDB) MarkChannelScidAliasNegotiated$1
+//@   props C06 C02
+//@   bounds-safe
+//@   site call putOpenChannel: assert arg(1) == retn(fetchOpenChannel, 0) && retn(fetchOpenChannel, 1) == nil
+//@   site call fetchOpenChannel: assert arg(1) == addr(channel.FundingOutpoint)
